@@ -8,6 +8,17 @@ import drive
 import p_schema as PS
 
 LEAN_TARGETS = ["Verif.Props.C17", "Verif.Props.Ties", "Verif.Props.TiesSchema"]
+SECOND_TIE = {
+    "what": "the hand-written Python around the description regexes of schema.py (_encode_oids, _encode_qdstring, _parse_oids, _parse_qdstring, "
+            "_parse_extensions with _extract_qdstring, and __str__ / from_string of the three description classes after PATTERN.match) translated "
+            "statement by statement from the Python AST into Lean (harness/py2lean_schema.py -> Generated/SchemaGen.lean) and proved equal to the "
+            "hand-written model of Model/Schema.lean (Props/TiesSchemaCode.lean); trusted boundary: PATTERN.match / m.group = the model's scanner "
+            "(tied to the compiled patterns by Props/TiesSchema.lean), the two re.sub calls = the model's quoted-string escape / unescape; side "
+            "conditions stated and their outside proved: int <-> str beyond 4300 digits, _parse_oids on white space other than blanks (unreachable from from_string)",
+    "translator": "py2lean_schema.py",
+    "targets": ["Verif.Props.TiesSchemaCode"],
+    "validate": "p_schemagen.py",
+}
 LEVEL = "proof"
 ASSUMPTIONS = [
     "the reference is a generator over (definition, layout) that walks the RFC 4512 grammars — every WSP/SP count, bare vs parenthesised lists, "
